@@ -96,6 +96,9 @@ func Run() {
 		}
 		os.Exit(c.Replay(args[0], quiet))
 	default:
+		if f := sim.Subcommands[os.Args[1]]; f != nil {
+			os.Exit(f(os.Args[2:]))
+		}
 		usage()
 	}
 }
